@@ -232,7 +232,7 @@ pub fn sets(ctx: &Ctx) -> Vec<CaseSet> {
     let (tb1, cfg1) = (tb.clone(), cfg.clone());
     out.push(CaseSet::new(
         "accepted-texts",
-        ctx.size(900_000, 18_000_000),
+        ctx.size(900_000, 40_000_000),
         Box::new(move |rep, rng, _| {
             let (input, tag): (Vec<u8>, &str) = match rng.below(8) {
                 0 | 1 => (text::token_soup(rng, 5), "token-soup"),
